@@ -639,6 +639,7 @@ func runC14(cfg Config) {
 	c14CLI(cfg, rep, rng)
 	c14IndexUpstreams(cfg, rep, rng)
 	runGCSMissingVsFailed(cfg, rep, m, rng)
+	storeOptsStores(cfg, rep, m, rng)
 	rep.Write(cfg.Out)
 }
 
